@@ -64,6 +64,7 @@ type zzBehaviour struct {
 	panicWhen int // 0 never, 1 before writing, 2 after writing
 	ret       int
 	err       bool
+	copies    bool // body sent with io.Copy from a plain reader (as the file server and ServeContent do): uses the writer's ReadFrom if it has one
 }
 
 func zzDraw() zzBehaviour {
@@ -108,7 +109,11 @@ func (h zzInner) ServeHTTP(w http.ResponseWriter, r *http.Request) (int, error) 
 			w.WriteHeader(b.status)
 		}
 		for _, c := range b.chunks {
-			w.Write(c)
+			if b.copies {
+				io.Copy(w, struct{ io.Reader }{bytes.NewReader(c)})
+			} else {
+				w.Write(c)
+			}
 		}
 		if b.panicWhen == 2 {
 			panic("inner handler panic after writing")
@@ -259,6 +264,9 @@ func VerifH12Wrapped() {
 		for _, x := range c {
 			verifrt.Assume(x != '{')
 		}
+	}
+	if len(b.chunks) > 0 {
+		b.copies = verifrt.Bool("body-sent-with-io-copy")
 	}
 	wr := zzWrappers{header: verifrt.Bool("header"), errors: verifrt.Bool("errors"), gzip: verifrt.Bool("gzip"), templates: verifrt.Bool("templates")}
 	verifrt.Assume(wr.gzip || wr.templates)
